@@ -463,7 +463,13 @@ impl<'f, 't, 'w, W: Write> Formatter<'f, 't, 'w, W> {
                  to format Unix timestamp",
             )
         })?;
-        ext.write_int(b' ', None, timestamp.as_second(), self.wtr)
+        // `as_second` truncates toward zero, but the civil fields (and thus
+        // `%S` and `%f`) count from the second at or before the instant.
+        let mut second = timestamp.as_second();
+        if timestamp.subsec_nanosecond() < 0 {
+            second -= 1;
+        }
+        ext.write_int(b' ', None, second, self.wtr)
     }
 
     /// %f
